@@ -71,7 +71,11 @@ def _tree(rng):
 
 
 def _expected(tree, patterns, fmt):
-    keep = lambda rel: ignoreref.match(patterns, rel) is not True
+    folders = {k for k, v in tree.items() if v is None}
+    for k in tree:
+        parts = k.split("/")
+        folders.update("/".join(parts[:i]) for i in range(1, len(parts)))
+    keep = lambda rel: ignoreref.match(patterns, rel, rel in folders) is not True
     out = {}
     dirhash.hashes(dirhash.build(tree, keep), fmt, out)
     return out
@@ -102,6 +106,14 @@ def run_case(cs):
     rng = cs.rng
     shape, tree = _tree(rng)
     pats = rng.sample(["*.tmp", "skipme", "?x.dat"], rng.choice([0, 0, 1, 2]))
+    if rng.random() < 0.2:
+        # patterns with a separator are tied to the root folder: the full path of an entry excludes it, the tail of a deep
+        # path (parent/name) excludes nothing unless such an entry exists directly below the root
+        deep = sorted(k for k in tree if k.count("/") >= 1 and re.match(r"^[A-Za-z0-9_./-]+$", k) and not k.startswith("-"))
+        if deep:
+            k = rng.choice(deep)
+            pats.append(rng.choice([k, "/".join(k.split("/")[-2:]), "/" + k, k.split("/")[0] + "/*", "/".join(k.split("/")[:-1]) + "/"]))
+            cs.count("anchored_patterns")
     dirs = [""] + [k for k, v in tree.items() if v is None]
     for n in rng.sample([".DS_Store", "a.tmp", "skipme", "ax.dat"], rng.randint(0, 2)):
         par = rng.choice(dirs)
@@ -139,13 +151,15 @@ def run_case(cs):
             cs.violation("root-only-hash-wrong", {"kind": "dirhash-mismatch", "source": "printed-ro", "format": f0}, {"got": g2.get("."), "want": want["."]})
     # ---------- metamorphic variant on a copy
     rel_kind = rng.choice(["rename", "edit", "permute"])
+    if rel_kind == "rename" and any(ignoreref.classify(p) == "anchored" for p in pats):
+        rel_kind = "edit"  # a pattern that spells out a path stops matching when a component of that path is renamed
     work = os.path.join(d, "M")
     shutil.copytree(root, work, symlinks=True)
     t2 = dict(tree)
     target = None
     if rel_kind == "rename":
         # (renaming a folder would leave a relative link to it dangling: with folder links present only files are renamed)
-        cand = [k for k in tree if ignoreref.match(allpat, k) is False and not (folder_links and tree[k] is None)]
+        cand = [k for k in tree if ignoreref.match(allpat, k, tree[k] is None) is False and not (folder_links and tree[k] is None)]
         if cand:
             target = rng.choice(cand)
             par = os.path.dirname(target)
@@ -205,7 +219,7 @@ def run_case(cs):
                 cs.violation("listing-order-changes-hash", {"kind": "metamorphic", "relation": "permute", "format": f0}, {"diff": [k for k in got if got.get(k) != got3.get(k)][:4]})
     shutil.rmtree(work, ignore_errors=True)
     # ---------- recorded by create (optionally with nested histories)
-    subdirs = [k for k, v in tree.items() if v is None and ignoreref.match(allpat, k) is False]
+    subdirs = [k for k, v in tree.items() if v is None and ignoreref.match(allpat, k, True) is False]
     nested = rng.sample(subdirs, min(len(subdirs), rng.choice([0, 0, 1, 2])))
     for n in nested:
         drive.run("create", [os.path.join(root, n)] + world.fmt_args(world.gen_formats(rng)) + [x for p in pats for x in ("-i", p)])
